@@ -252,6 +252,9 @@ func describe(v Value) string {
 		if c.T == nil {
 			return "nil-iface"
 		}
+		if sv, ok := c.V.(*StrVal); ok {
+			return sv.String()
+		}
 		return fmt.Sprintf("%s(%s)", c.T, describe(c.V))
 	case SliceVal:
 		return fmt.Sprintf("slice[len %d]", c.Len)
